@@ -4,6 +4,7 @@ CONSTANTS
   AddrsOf <- AddrsDef
   Limits <- LimNone
   MaxCid = 1000000
+  WsAddrs <- WsDef
   Fixed <- FixedNow
 POSTCONDITION Accepted
 CHECK_DEADLOCK FALSE
